@@ -249,6 +249,15 @@ def resolve_plugin(plugin: str, lineinfo) -> object:
         categories.append((FakerProvider, cls))
     else:
         if issubclass(cls, SnowfakeryPlugin):
+            if (
+                not hasattr(cls, "Functions")
+                and cls.custom_functions is SnowfakeryPlugin.custom_functions
+            ):
+                raise exc.DataGenTypeError(
+                    f"{cls} is a Snowfakery Plugin without a `Functions` class",
+                    lineinfo.filename,
+                    lineinfo.line_num,
+                )
             categories.append((SnowfakeryPlugin, cls))
         if issubclass(cls, ParserMacroPlugin):
             categories.append((ParserMacroPlugin, cls))
